@@ -524,6 +524,52 @@ func genDispatch() map[string]any {
 		}
 		fmt.Fprintf(&b, "(%s, [%s])", leanStr(x.Fn), strings.Join(incs, ", "))
 	}
+	b.WriteString("]\n\n")
+	// where each of those calls stands: before the event write of its branch and outside any select
+	b.WriteString("/-- placement of the `IncLogins` calls inside the entry functions: `before-write` = a write of the event follows in the function and the call is not inside a `select` -/\ndef incPlacement : List (String × List String) :=\n  [")
+	for i, x := range fis {
+		if i > 0 {
+			b.WriteString(",\n   ")
+		}
+		var places []string
+		fd := fm[x.Fn]
+		var writes []token.Pos
+		ast.Inspect(fd.Body, func(n ast.Node) bool {
+			if c, ok := n.(*ast.CallExpr); ok && strings.HasSuffix(selName(c.Fun), ".eventW.Write") {
+				writes = append(writes, c.Pos())
+			}
+			return true
+		})
+		var walk func(n ast.Node, inSelect bool)
+		walk = func(n ast.Node, inSelect bool) {
+			ast.Inspect(n, func(m ast.Node) bool {
+				if m == n {
+					return true
+				}
+				switch v := m.(type) {
+				case *ast.SelectStmt:
+					walk(v, true)
+					return false
+				case *ast.CallExpr:
+					if _, ok := incOf(v, mc, x.Fn); ok {
+						place := "after-write"
+						for _, w := range writes {
+							if w > v.Pos() {
+								place = "before-write"
+							}
+						}
+						if inSelect {
+							place = "in-select"
+						}
+						places = append(places, leanStr(place))
+					}
+				}
+				return true
+			})
+		}
+		walk(fd.Body, false)
+		fmt.Fprintf(&b, "(%s, [%s])", leanStr(x.Fn), strings.Join(places, ", "))
+	}
 	b.WriteString("]\n\nend AM.Gen\n")
 	write("Dispatch.lean", b.String())
 	// the bodies of the functions the two tables name
